@@ -218,6 +218,11 @@ func TestFold(t *testing.T) {
 		for i := lo; i < hi; i++ {
 			hay := []rune(pick(rng.IntN(40)))
 			needle := []rune(pick(1 + rng.IntN(4)))
+			if i%500 == 3 {
+				// long operands: thousands of runes, needles of dozens
+				hay = []rune(pick(1000 + rng.IntN(4000)))
+				needle = []rune(pick(8 + rng.IntN(60)))
+			}
 			// a case variant of the needle inserted at a random offset
 			variant := make([]rune, len(needle))
 			for k, x := range needle {
@@ -276,7 +281,11 @@ func TestSplit(t *testing.T) {
 		rng := r.Rand(uint64(70 + w))
 		for i := lo; i < hi; i++ {
 			var sb strings.Builder
-			for k := rng.IntN(30); k > 0; k-- {
+			k := rng.IntN(30)
+			if i%500 == 3 {
+				k = 2000 + rng.IntN(6000) // thousands of pieces
+			}
+			for ; k > 0; k-- {
 				sb.WriteString(al[rng.IntN(len(al))])
 			}
 			splitCase(r, l, sb.String(), seps[rng.IntN(len(seps))])
